@@ -3,9 +3,12 @@ from . import chlib
 
 PROPERTY = "C17"
 FILE = "harness/chx_C17.py"
-FUNCTIONS = ["magpylib._src.input_checks:check_array_shape", "magpylib._src.input_checks:check_format_input_vector"]
+FUNCTIONS = ["magpylib._src.input_checks:check_array_shape", "magpylib._src.input_checks:check_format_input_vector",
+             "magpylib._src.input_checks:validate_field_func", "magpylib._src.obj_classes.class_misc_CustomSource:CustomSource.field_func"]
 BOUNDS = ["all shapes of rank 0..4 with dims 0..6 for: Cuboid/Cylinder/CylinderSegment.dimension, polarization, magnetization, Dipole.moment, "
-          "Tetrahedron/Triangle/Polyline.vertices, Sensor.pixel, position, move displacement"]
+          "Tetrahedron/Triangle/Polyline.vertices, Sensor.pixel, position, move displacement",
+          "CustomSource.field_func: per field (B, H) the callable returns one of {None, (n,3) array, scalar, list, (n,2) array, (n,3,1) array} (symbolic selectors), "
+          "through constructor or setter"]
 CUTS = ["arrays are stand-ins exposing ndim/shape/len(); the per-attribute check configuration is captured from the real setter at run time"]
 ASSUMPTIONS = ["CrossHair 'Confirmed over all paths' within the per-condition timeout"]
 NOT_DECIDED = ["type grammar beyond shapes/None (strings, nested non-numeric sequences): decided inside np.array(..., dtype=float), compiled code",
